@@ -19,7 +19,7 @@ Ev(e) == \/ e.ev = "write"   /\ StartWrite /\ LastK = e.k /\ UNCHANGED nret
          \/ e.ev = "sync"    /\ StartSync  /\ UNCHANGED nret
          \/ e.ev = "resume"  /\ Resume     /\ UNCHANGED nret
          \/ e.ev = "drop"    /\ Drop       /\ UNCHANGED nret
-         \/ e.ev = "accept"  /\ Accept /\ LastK = e.k /\ UNCHANGED nret
+         \/ e.ev = "accept"  /\ AcceptK(e.k) /\ LastK = e.k /\ UNCHANGED nret
          \/ e.ev = "zero"    /\ Zero       /\ UNCHANGED nret
          \/ e.ev = "pending" /\ Pending    /\ UNCHANGED nret
          \/ e.ev = "fail"    /\ Fail       /\ UNCHANGED nret
